@@ -368,6 +368,8 @@ func Chains(j *job.Job, s *job.Sink) {
 }
 
 // Malformed: clearly malformed restriction strings must be rejected.
+var badDecimal = []string{".", "-.", "-. | .", "+.", ". .. .", "1.0..", "..2.5", "a", "1.2.3", "1.0..2.0..3.0", "--1.0", "1e3", "+-1.5", "1,5", "1.5|", "|1.5", "", "|", "1. 5", "- 1.5", "1.5..-", "min..", "0.5..ma x"}
+
 func Malformed(j *job.Job, s *job.Sink) {
 	bad := []string{"", "|", "1|", "|1", "..", "1..", "..5", "1..2..3", "a", "1..b", "1.5", "1..2|", "1 2", "--1", "1-2", "1...5", "min..", "..max", "5..1", "1..5|3..2", "1,5", "0x", "1e3",
 		// sign forms: at most one sign, directly before the digits
@@ -382,6 +384,25 @@ func Malformed(j *job.Job, s *job.Sink) {
 		s.Count("malformed", 1)
 		if got, err := yang.ParseRangesInt(str); err == nil {
 			s.Violation(int64(i), j.CaseID(int64(i)), "C10.malformed", "accepts-malformed", fmt.Sprintf("ParseRangesInt(%q) = %v", str, got), map[string]string{"restriction": str}, nil)
+		}
+		// the same through the decimal parser, with strings that are malformed for decimals too
+		// (digitless literals like "." among them; "5." and ".5" are leniency and not judged)
+		if i < len(badDecimal) {
+			ds := badDecimal[i]
+			s.Count("malformed", 1)
+			for _, fd := range []uint8{1, 2, 18} {
+				if got, err := yang.ParseRangesDecimal(ds, fd); err == nil {
+					s.Violation(int64(i), j.CaseID(int64(i)), "C10.malformed", "accepts-malformed", fmt.Sprintf("ParseRangesDecimal(%q, %d) = %v", ds, fd, got), map[string]string{"restriction": ds}, nil)
+					break
+				}
+			}
+			dtext := fmt.Sprintf("module m { namespace \"urn:m\"; prefix m; leaf l { type decimal64 { fraction-digits 2; range %q; } } }", ds)
+			dms := yang.NewModules()
+			if err := dms.Parse(dtext, "m.yang"); err == nil {
+				if errs := dms.Process(); len(errs) == 0 {
+					s.Violation(int64(i), j.CaseID(int64(i)), "C10.malformed", "schema-accepts-malformed", fmt.Sprintf("range %q accepted on decimal64", ds), map[string]string{"text": dtext}, nil)
+				}
+			}
 		}
 		text := fmt.Sprintf("module m { namespace \"urn:m\"; prefix m; leaf l { type int32 { range %q; } } }", str)
 		ms := yang.NewModules()
